@@ -1,24 +1,28 @@
 package sim
 
 // Scenarios maps a property id to its scenario constructor.
-var Scenarios = map[string]func() *Scenario{
-	"C01": C01Scenario,
-	"C02": C02Scenario,
-	"C03": C03Scenario,
-	"C04": C04Scenario,
-	"C06": C06Scenario,
-	"C07": C07Scenario,
-	"C08": C08Scenario,
-	"C09": C09Scenario,
-	"C10": C10Scenario,
-	"C11": C11Scenario,
-	"C12": C12Scenario,
-	"C13": C13Scenario,
-	"C14": C14Scenario,
-	"C15": C15Scenario,
-	"C16": C16Scenario,
-	"C17": C17Scenario,
-	"C18": C18Scenario,
-	"C19": C19Scenario,
-	"C20": C20Scenario,
+var Scenarios map[string]func() *Scenario
+
+func init() {
+	Scenarios = map[string]func() *Scenario{
+		"C01": C01Scenario,
+		"C02": C02Scenario,
+		"C03": C03Scenario,
+		"C04": C04Scenario,
+		"C06": C06Scenario,
+		"C07": C07Scenario,
+		"C08": C08Scenario,
+		"C09": C09Scenario,
+		"C10": C10Scenario,
+		"C11": C11Scenario,
+		"C12": C12Scenario,
+		"C13": C13Scenario,
+		"C14": C14Scenario,
+		"C15": C15Scenario,
+		"C16": C16Scenario,
+		"C17": C17Scenario,
+		"C18": C18Scenario,
+		"C19": C19Scenario,
+		"C20": C20Scenario,
+	}
 }
